@@ -51,11 +51,13 @@ fn c01_alphabet(cfg: &NodeCfg) -> Vec<Op> {
     }
     let mut a = vec![Op::Send(1), Op::Send(2), Op::Send(3), Op::Flush, Op::BgSave, Op::Restart, Op::Reject];
     if cfg.dedup {
+        // Send(3) makes room for the purge: ids sent before a purge may or may not be remembered after it
+        // (the model follows what the server did), offsets must restart at 0 either way
+        a.retain(|o| *o != Op::Send(3));
         a.push(Op::SendIds(vec![1, 2, 1]));
         a.push(Op::SendIds(vec![2, 3]));
-    } else {
-        a.push(Op::Purge);
     }
+    a.push(Op::Purge);
     a
 }
 
@@ -221,7 +223,7 @@ pub fn replay(prop: &str, r: &Value) -> Vec<Violation> {
 
 /// Updates the model from a step outcome. Returns Err only for contradictions that every
 /// log property forbids (an accepted "must be rejected" send).
-pub(crate) fn model_step(m: &mut LogModel, op: &Op, out: &StepOut, ctx: &mut StepCtx) -> Result<(), String> {
+pub(crate) fn model_step(w: &mut World, m: &mut LogModel, op: &Op, out: &StepOut, ctx: &mut StepCtx) -> Result<(), String> {
     match (op, out) {
         (Op::Reject, StepOut::Sent { result, .. }) => {
             if result.is_ok() {
@@ -231,7 +233,13 @@ pub(crate) fn model_step(m: &mut LogModel, op: &Op, out: &StepOut, ctx: &mut Ste
         }
         (Op::Send(_) | Op::SendIds(_), StepOut::Sent { msgs, result }) => match result {
             Ok(()) => {
-                let n = m.accept(msgs);
+                let n = if m.has_ambiguous(msgs) {
+                    ctx.res.bump("batches_repeating_ids_from_before_a_purge");
+                    let now = w.poll_all(1).map_err(|e| format!("full read failed: {e}"))?;
+                    m.accept_observed(msgs, &|payload: &[u8]| now.msgs.iter().any(|g| g.payload == payload))
+                } else {
+                    m.accept(msgs)
+                };
                 if n < msgs.len() {
                     ctx.res.bump("batches_with_duplicates_dropped");
                 }
@@ -312,7 +320,7 @@ pub struct C01 {
 
 impl Oracle for C01 {
     fn step(&mut self, w: &mut World, op: &Op, out: &StepOut, ctx: &mut StepCtx) -> Result<(), String> {
-        model_step(&mut self.m, op, out, ctx)?;
+        model_step(w, &mut self.m, op, out, ctx)?;
         let p = w.poll_all(1).map_err(|e| format!("full poll failed: {e}"))?;
         ctx.res.obs_keys.push(hash64(&serde_json::to_vec(&p.msgs.iter().map(|g| (g.offset, g.id)).collect::<Vec<_>>()).unwrap()));
         self.m.check_full(&p, false)?;
@@ -471,7 +479,7 @@ impl C02 {
 
 impl Oracle for C02 {
     fn step(&mut self, w: &mut World, op: &Op, out: &StepOut, ctx: &mut StepCtx) -> Result<(), String> {
-        model_step(&mut self.m, op, out, ctx)?;
+        model_step(w, &mut self.m, op, out, ctx)?;
         // the full poll pins timestamps/checksums of new messages and is itself a C02 poll
         let p = w.poll_all(1).map_err(|e| format!("full poll failed: {e}"))?;
         let want = self.m.slice(0, u64::MAX - 1);
@@ -552,7 +560,7 @@ impl Oracle for C03 {
         Ok(())
     }
     fn step(&mut self, w: &mut World, op: &Op, out: &StepOut, ctx: &mut StepCtx) -> Result<(), String> {
-        model_step(&mut self.m, op, out, ctx)?;
+        model_step(w, &mut self.m, op, out, ctx)?;
         let now = observe(w)?;
         ctx.res.obs_keys.push(hash64(format!("{:?}", now).as_bytes()));
         if let (Op::Restart | Op::RestartNoDrain, StepOut::Restarted(r)) = (op, out) {
